@@ -676,6 +676,41 @@ pub fn gen_graph_project(rng: &mut Rng, tier: Tier, ptr: usize) -> Project {
         }
     }
 
+    // An `impl` block for something that is not a type of its module: an enum, a type of
+    // another module (imported), a generated vftable type, a name declared nowhere. Its
+    // functions are declared like any other; a build that accepts the module has dropped them.
+    if !mention_generated && rng.chance(1, 12) && !p.items.is_empty() {
+        let m = rng.below(cfg.modules);
+        let enums_here: Vec<String> = p
+            .items
+            .iter()
+            .filter(|it| it.module == m && matches!(it.kind, ItemKind::Enum { .. }))
+            .map(|it| it.name.clone())
+            .collect();
+        let foreign: Vec<usize> = (0..p.items.len()).filter(|i| p.items[*i].module != m).collect();
+        let owners_here: Vec<String> = p
+            .items
+            .iter()
+            .filter(|it| it.module == m && matches!(&it.kind, ItemKind::Type { vftable: Some(_), .. }))
+            .map(|it| format!("{}Vftable", it.name))
+            .collect();
+        let target = match rng.below(4) {
+            0 if !enums_here.is_empty() => rng.pick(&enums_here).clone(),
+            1 if !foreign.is_empty() => {
+                let j = *rng.pick(&foreign);
+                let line = format!("use {}::{};", p.modules[p.items[j].module].item_path(), p.items[j].name);
+                p.modules[m].extra_uses.push(line);
+                p.items[j].name.clone()
+            }
+            2 if !owners_here.is_empty() => rng.pick(&owners_here).clone(),
+            _ => format!("Nowhere{}", rng.below(10)),
+        };
+        p.modules[m].trailer.push_str(&format!(
+            "impl {target} {{\n    #[address(0x{:x})]\n    pub fn orphan_fn(&self, a: u32) -> u32;\n}}\n",
+            0xB000 + 16 * m
+        ));
+    }
+
     // Declaration order: anything goes.
     for m in 0..cfg.modules {
         let mut order: Vec<Decl> = vec![];
@@ -1593,7 +1628,9 @@ fn evaluate_world(
                     )
                 }
                 Outcome::Ok if expect_err => {
-                    let why = if let Some(u) = model.undefined.first() {
+                    let why = if let Some(o) = model.orphan_impls.first() {
+                        format!("`impl {o}` is not for a type declared in its module: its functions are dropped")
+                    } else if let Some(u) = model.undefined.first() {
                         format!(
                             "undefined name `{}` in {:?} position of `{}`",
                             u.name, u.position, u.owner
